@@ -313,3 +313,58 @@ def double_decimal_promotion(i: int, j: int, swap: bool) -> bool:
         if _val(k, a, b) is not want or _gen(k, [a], [b]) is not want or _gen(k, [a, a], [b]) is not want:
             return False
     return True
+
+
+# --- added after round-3 seeded changes: octet order of binaries (XPath 3.1) and the unordered base type xs:duration -------------------
+
+from elementpath.datatypes import HexBinary, Base64Binary, Duration  # noqa: E402
+import base64 as _b64  # noqa: E402
+OCTETS = (0x00, 0x41, 0xFF)
+
+
+def _octets(i0, i1, n):
+    """concrete byte string of length n <= 2 over OCTETS on each path"""
+    out = []
+    for i in (i0, i1)[:n]:
+        out.append(OCTETS[[k for k in range(3) if k == i][0]])
+    return bytes(out)
+
+
+@ob(budget=300, bound='two binaries of 0..2 octets each over 3 octet values (lengths and octets chosen by the solver), hexBinary and base64Binary '
+                      'with the XPath 3.1 ordering: the six value comparisons = the order of the octet strings (a proper prefix is less)',
+    funcs=['elementpath/datatypes/binary.py:AbstractBinary.__lt__/__le__/__gt__/__ge__/__eq__', O2 + ':value comparisons'])
+def value_binary_octet_order(a0: int, a1: int, n: int, b0: int, b1: int, m: int, b64: bool) -> bool:
+    """
+    pre: 0 <= n <= 2 and 0 <= m <= 2 and all(0 <= i <= 2 for i in (a0, a1, b0, b1))
+    post: _
+    """
+    n = 0 if n == 0 else 1 if n == 1 else 2
+    m = 0 if m == 0 else 1 if m == 1 else 2
+    x, y = _octets(a0, a1, n), _octets(b0, b1, m)
+    if b64:
+        a, b = Base64Binary(_b64.b64encode(x).decode(), ordered=True), Base64Binary(_b64.b64encode(y).decode(), ordered=True)
+    else:
+        a, b = HexBinary(x.hex().upper(), ordered=True), HexBinary(y.hex().upper(), ordered=True)
+    return all(_val(k, a, b) is f(x, y) for k, f in OPS.items())
+
+
+@ob(budget=240, bound='two xs:duration values (base type) with months and seconds in [-1, 1] (same sign): eq/ne compare both components, lt/le/gt/ge raise '
+                      'XPTY0004 (the base type is not ordered); through the general comparisons as well',
+    funcs=[O2 + ':evaluate__value_comparison_operators', 'elementpath/datatypes/datetime.py:Duration'])
+def duration_base_type_unordered(m1: int, s1: int, m2: int, s2: int) -> bool:
+    """
+    pre: all(-1 <= v <= 1 for v in (m1, s1, m2, s2)) and m1 * s1 >= 0 and m2 * s2 >= 0
+    post: _
+    """
+    a, b = Duration(months=m1, seconds=s1), Duration(months=m2, seconds=s2)
+    same = m1 == m2 and s1 == s2
+    if _val('eq', a, b) is not same or _val('ne', a, b) is same:
+        return False
+    for k in ('lt', 'le', 'gt', 'ge'):
+        try:
+            _val(k, a, b)
+            return False
+        except ElementPathError as e:
+            if err_code(e) != 'XPTY0004':
+                return False
+    return True
